@@ -20,7 +20,7 @@ LEVEL = 'exploration'
 RULE = (
     'step alphabet {-0.45,-0.2,0,0.2,0.45}: all single-axis step histories up to T frames (per axis), all '
     '3-axis step histories for T<=3, N in {1,2,3} atoms on different (derived) tracks, x LATTICES x dimensions '
-    '{1,2,3}; length sweep T=2..48 over 20 fixed tracks; input coordinates are wrapped into [0,1); distinct = '
+    '{1,2,3} asked of ONE metrics object in turn; query-then-extend history; length sweep T=2..48 over 20 fixed tracks; one trajectory of 3 x 30000 frames (> 2^18 coordinates); input coordinates are wrapped into [0,1); distinct = '
     'distinct MSD arrays (rounded to 1e-9)'
 )
 LEVEL_TEXT = (
